@@ -340,6 +340,51 @@ def check(run: Run) -> None:
         if not d or R.aliases_of(fa2)(d[0].init).replace(" ", "") != "call.defaults_used":
             run.finding("C19.i", "resolve:rank-seed", "the rank adjustment of a candidate must start at the number of defaults its normalised call used", loc=DISP)
 
+    with run.obligation("C19.j", "K6", "a type variable that occurs several times in a candidate is charged ONCE, at its cheapest occurrence, whatever the order in which the "
+                        "occurrences are visited: RankAccumulator::add_var keeps the minimum rank per variable (so (item: V, coll: TSL[V]) and (coll: TSL[V], item: V) "
+                        "rank the same)"):
+        fa = R.fn(run, "include/hgraph/types/operator_dispatch.h", "RankAccumulator::add_var")
+        cn = R.Canon()
+        run.count(1, "C19.j")
+        ok = False
+        for n_ in fa.body.walk():
+            if isinstance(n_, C.If):
+                cond = re.sub(r"\s", "", cn(n_.cond))
+                lowers = any(isinstance(x, C.Binary) and x.op == "=" and re.sub(r"\s", "", cn(x.l)) in ("it->second", "vars[key]") and cn(x.r) == "rank" for x in n_.then.walk())
+                if lowers and ("rank<it->second" in cond or "it->second>rank" in cond or "rank<vars[key]" in cond) and "inserted" in cond:
+                    ok = True
+            if isinstance(n_, C.Binary) and n_.op == "=" and re.sub(r"\s", "", cn(n_.l)) in ("it->second", "vars[key]") and "std::min(" in cn(n_.r):
+                ok = True
+        if not ok:
+            run.finding("C19.j", "RankAccumulator::add_var:not-minimum", "add_var no longer lowers the stored rank of a variable that is seen again at a cheaper position: the "
+                        "candidate's rank depends on the ORDER of its parameters, so a looser overload can win or a spurious ambiguity is reported", loc=fa.loc(fa.body))
+        fa = R.fn(run, "include/hgraph/types/operator_dispatch.h", "RankAccumulator::total")
+        if not any(isinstance(l, C.RangeFor) and cn(l.range) == "vars" for l in R.loops(fa)):
+            run.finding("C19.j", "RankAccumulator::total:vars-not-summed", "total() must add the rank of every variable once", loc=fa.loc(fa.body))
+
+    with run.obligation("C19.k", "K11", "the inheritance distance that ranks an ancestor overload is computed on the DEREFERENCED schemas: matching sees through REF, so the "
+                        "kind tests that short-circuit the rank to 0 must look at registry.dereference(...) of both sides, never at the raw pattern / argument schema "
+                        "(a REF[TS[Derived]] argument would make every ancestor overload rank 0)"):
+        fa = R.fn(run, "src/hgraph/types/operator_dispatch.cpp", "input_adaptation_rank")
+        deref = {d.name for d in R.find(fa, lambda n: isinstance(n, C.Declarator) and n.init is not None) if any(R.callee_name(c) == "dereference" for c in
+                 R.calls(d.init) + ([d.init] if isinstance(d.init, C.Call) else []))}
+        run.count(1, "C19.k")
+        if len(deref) < 2:
+            run.finding("C19.k", "input_adaptation_rank:no-dereference", "input_adaptation_rank no longer dereferences both schemas", loc=fa.loc(fa.body))
+        n_kind = 0
+        for i_ in R.find(fa, lambda n: isinstance(n, C.If)):
+            if not any(isinstance(x, C.Return) for x in i_.then.walk()):
+                continue
+            for m_ in i_.cond.walk():
+                if isinstance(m_, C.Member) and m_.name == "kind" and m_.arrow:
+                    n_kind += 1
+                    root = m_.obj
+                    if not (isinstance(root, C.Id) and root.name in deref):
+                        run.finding("C19.k", "input_adaptation_rank:kind-test-on-raw-schema", f"the rank is short-circuited on `{cn(m_)}` - the raw, not dereferenced schema: "
+                                    "a REF-wrapped argument loses its upcast penalty and an ancestor overload ties with (or beats) the most specific one", loc=fa.loc(i_))
+        if n_kind < 2:
+            run.finding("C19.k", "input_adaptation_rank:kind-tests-missing", "both dereferenced schemas must be checked for TS kind before the bundle distance is taken", loc=fa.loc(fa.body))
+
 
 def _enum(run, rel, struct):
     fi = run.tree.file(rel)
@@ -350,6 +395,8 @@ def _enum(run, rel, struct):
 
 
 VARIANTS = [
+    {"id": "j-first-occurrence-wins", "expect": "C19.j", "edits": [{"file": "include/hgraph/types/operator_dispatch.h", "find": "                auto [it, inserted] = vars.emplace(std::move(key), rank);\n                if (!inserted && rank < it->second) { it->second = rank; }", "replace": "                vars.try_emplace(std::move(key), rank);"}]},
+    {"id": "k-kind-test-before-dereference", "expect": "C19.k", "edits": [{"file": "src/hgraph/types/operator_dispatch.cpp", "find": "            if (pattern.kind != TypePattern::Kind::Concrete || pattern.meta == nullptr || concrete == nullptr)\n            {\n                return 0;\n            }\n\n            TypeRegistry &registry", "replace": "            if (pattern.kind != TypePattern::Kind::Concrete || pattern.meta == nullptr || concrete == nullptr ||\n                pattern.meta->kind != TSTypeKind::TS || concrete->kind != TSTypeKind::TS)\n            {\n                return 0;\n            }\n\n            TypeRegistry &registry"}]},
     {"id": "i-none-default-not-counted", "expect": "C19.i", "edits": [{"file": DISP, "find": "                        synthesised.scalar_meta  = synthesised.scalar_value.schema();\n                    }\n                    filled[p] = std::move(synthesised);\n                    ++out.defaults_used;", "replace": "                        synthesised.scalar_meta  = synthesised.scalar_value.schema();\n                        ++out.defaults_used;\n                    }\n                    filled[p] = std::move(synthesised);"}]},
     {"id": "h-tsw-match-ignores-min-period", "expect": "C19.h", "edits": [{"file": PAT, "find": "                       (!concrete->is_duration_based() && pattern.fixed_size == concrete->period() &&\n                        pattern.min_size == concrete->min_period());", "replace": "                       (!concrete->is_duration_based() && pattern.fixed_size == concrete->period());"}]},
     {"id": "b-partial-sort-head-only", "expect": "C19.b", "edits": [{"file": DISP, "find": "        std::stable_sort(survivors.begin(), survivors.end(),\n                         [](const Survivor &a, const Survivor &b) { return a.rank < b.rank; });", "replace": "        std::partial_sort(survivors.begin(), survivors.begin() + 1, survivors.end(),\n                          [](const Survivor &a, const Survivor &b) { return a.rank < b.rank; });"}]},
